@@ -575,6 +575,141 @@ def visitor_diff(label, seen, pre):
     return (f"{label}:order", "all nodes visited once but not in preorder of the specification's child order")
 
 
+# ---------------------------------------------------------------------------
+# part 3: visitor class hierarchies and orders of use
+# ---------------------------------------------------------------------------
+ORDERS = ["plain-first", "base-then-derived", "derived-then-base", "siblings-alternating", "same-class-twice"]
+
+
+def _mk_visitor(name, bases, visit_names):
+    """A fresh visitor class: visit_<n> for n in visit_names records and does
+    not descend; generic_visit records and descends (defined once, on the
+    class that has no visitor base)."""
+    from pycparser import c_ast
+
+    d = {}
+    if bases == (c_ast.NodeVisitor,):
+        def init(self):
+            self.hit = []
+            self.gen = []
+
+        def g(self, n):
+            self.gen.append(id(n))
+            c_ast.NodeVisitor.generic_visit(self, n)
+        d["__init__"] = init
+        d["generic_visit"] = g
+    for nm in visit_names:
+        def m(self, n, _nm=nm):
+            self.hit.append((_nm, id(n)))
+        d["visit_" + nm] = m
+    return type(name, bases, d)
+
+
+def _expect(by, root, visit_names):
+    """(hits, generic) a visitor defining exactly visit_<n>, n in visit_names, must see."""
+    hits, gen = [], []
+    stack = [root]
+    while stack:
+        n = stack.pop()
+        k = n.__class__.__name__
+        if k in visit_names:
+            hits.append((k, id(n)))
+            continue
+        gen.append(id(n))
+        for _, c in reversed(astspec.spec_children(by, n)):
+            stack.append(c)
+    return hits, gen
+
+
+def _judge(by, root, v, visit_names, order, role, X, out):
+    hits, gen = _expect(by, root, set(visit_names))
+    if v.hit != hits:
+        kind = "missed" if len(v.hit) < len(hits) else ("extra" if len(v.hit) > len(hits) else "other-nodes")
+        out.append((f"hierarchy:{order}:|{X}|visit_X-{kind}",
+                    f"{role} visitor defining {sorted(visit_names)} intercepted {len(v.hit)} nodes, expected {len(hits)}"))
+    elif v.gen != gen:
+        out.append((f"hierarchy:{order}:|{X}|generic-part",
+                    f"{role} visitor: generic_visit saw {len(v.gen)} nodes, expected {len(gen)}"))
+
+
+def hierarchy_problems(by, root, X, Y, stats, orders=None):
+    """The given ORDERS (default all) for one class X on one tree that contains X."""
+    from pycparser import c_ast
+
+    NV = c_ast.NodeVisitor
+    orders = ORDERS if orders is None else orders
+    out = []
+    if ORDERS[0] in orders:  # plain NodeVisitor instance first
+        NV().visit(root)
+        V = _mk_visitor("AfterPlain_" + X, (NV,), [X])
+        v = V(); v.visit(root)
+        _judge(by, root, v, [X], ORDERS[0], "subclass", X, out)
+        stats["hierarchy_visitor_runs"] += 2
+    if ORDERS[1] in orders:  # Base without visit_X first, then Derived(Base) with visit_X
+        B = _mk_visitor("Base", (NV,), [])
+        D = _mk_visitor("Derived_" + X, (B,), [X])
+        b = B(); b.visit(root)
+        _judge(by, root, b, [], ORDERS[1], "base", X, out)
+        d = D(); d.visit(root)
+        _judge(by, root, d, [X], ORDERS[1], "derived", X, out)
+        stats["hierarchy_visitor_runs"] += 2
+    if ORDERS[2] in orders:  # Derived first, then Base
+        B = _mk_visitor("Base", (NV,), [])
+        D = _mk_visitor("Derived_" + X, (B,), [X])
+        d = D(); d.visit(root)
+        _judge(by, root, d, [X], ORDERS[2], "derived", X, out)
+        b = B(); b.visit(root)
+        _judge(by, root, b, [], ORDERS[2], "base", X, out)
+        stats["hierarchy_visitor_runs"] += 2
+    if ORDERS[3] in orders:  # two siblings below one base with different visit_* sets, alternating
+        P = _mk_visitor("Parent", (NV,), [])
+        S1 = _mk_visitor("Sib_" + X, (P,), [X])
+        S2 = _mk_visitor("Sib_" + Y, (P,), [Y])
+        for rnd in range(2):
+            s1 = S1(); s1.visit(root)
+            _judge(by, root, s1, [X], ORDERS[3], "sibling-1", X, out)
+            s2 = S2(); s2.visit(root)
+            _judge(by, root, s2, [Y], ORDERS[3], "sibling-2", X, out)
+        stats["hierarchy_visitor_runs"] += 4
+    if ORDERS[4] in orders:  # the same subclass instantiated twice
+        V = _mk_visitor("Twice_" + X, (NV,), [X])
+        v1 = V(); v1.visit(root)
+        v2 = V(); v2.visit(root)
+        _judge(by, root, v1, [X], ORDERS[4], "first-instance", X, out)
+        _judge(by, root, v2, [X], ORDERS[4], "second-instance", X, out)
+        stats["hierarchy_visitor_runs"] += 2
+    stats["hierarchy_cases"] += len(orders)
+    return out
+
+
+def _hier_work(task):
+    """task = (X, Y, [(origin, text)]): every order on every tree of the list
+    that contains X.  The worker first runs the ordinary visitors of part 2 on
+    each tree, so the hierarchy families always start in a process where other
+    visitor classes (and instances) have already been used."""
+    W = _wstate()
+    by = W["by"]
+    X, Y, items, orders = task
+    stats = {"hierarchy_visitor_runs": 0, "hierarchy_cases": 0, "hierarchy_trees": 0}
+    fails = []
+    for origin, text in items:
+        o = core.parse_outcome(text, "pool.c")
+        if o[0] != "ok":
+            continue
+        roots = [("root", o[1])] + attr_held_nodes(by, o[1])
+        for where, r in roots:
+            if not any(n.__class__.__name__ == X for _, _, n in astspec.preorder(by, r)):
+                continue
+            W["Counting"]().visit(r)
+            W["All"]().visit(r)
+            W["One"][X]().visit(r)
+            stats["hierarchy_trees"] += 1
+            for sig, det in hierarchy_problems(by, r, X, Y, stats, orders):
+                fails.append((sig, {"text": text, "origin": origin, "root": where, "hierarchy_class": X,
+                                    "sibling_class": Y, "orders": orders}, det))
+    return X, stats, fails
+
+
 def _pool_work(items):
     W = _wstate()
     stats = {"nodes": 0, "classes": {}, "node_local": 0, "visitor_runs": 0, "show_runs": 0,
@@ -675,6 +810,30 @@ def run(tier):
         fails.extend(fl)
         hashes |= hs
     phases["pool_sweep"] = round(time.time() - t0, 1)
+    # ---- part 3: hierarchies / orders of use (hand-written pool, every class) ----
+    t0 = time.time()
+    names_all = [s.name for s in sp]
+    mini = [(f"M:{i}", p) for i, p in enumerate(mini_pool.PROGRAMS)]
+    mini.sort(key=lambda x: (len(x[1]), x[1]))
+    hstats = {}
+    hier_classes = set()
+    # a bare NodeVisitor() instance is used only in the second pass, so that the
+    # other orders are judged in processes where none was used yet
+    for orders in (ORDERS[1:], ORDERS[:1]):
+        htasks = [(X, names_all[(i + 1) % len(names_all)], mini, orders) for i, X in enumerate(names_all)]
+        for X, st, fl in core.pmap(_hier_work, htasks, chunksize=1):
+            merge_stats(hstats, st)
+            fails.extend(fl)
+            if st["hierarchy_trees"]:
+                hier_classes.add(X)
+    phases["hierarchy"] = round(time.time() - t0, 1)
+    if hier_classes != set(names_all) or hstats.get("hierarchy_cases", 0) < len(ORDERS) * len(names_all):
+        R.fail("vacuous:hierarchy", {"classes_without_tree": sorted(set(names_all) - hier_classes)},
+               "some class had no tree for the visitor-hierarchy families")
+    R.set("hierarchy_orders", ORDERS)
+    R.set("hierarchy_cases", hstats.get("hierarchy_cases", 0))
+    R.set("hierarchy_trees", hstats.get("hierarchy_trees", 0))
+    R.set("hierarchy_visitor_runs", hstats.get("hierarchy_visitor_runs", 0))
     R.set("phase_seconds", phases)
     R.fail_many(regroup(fails))
     names = [s.name for s in sp]
@@ -686,7 +845,7 @@ def run(tier):
     if stats.get("intercepted", 0) == 0 or stats.get("nested_same_class", 0) == 0:
         R.fail("vacuous:visit_X", {}, "no visit_X interception (or no nested same-class case) was exercised")
     evaluations = (counts["observations_compared"] + counts["drift_comparisons"] + stats.get("node_local", 0)
-                   + stats.get("visitor_runs", 0) + stats.get("show_runs", 0))
+                   + stats.get("visitor_runs", 0) + stats.get("show_runs", 0) + hstats.get("hierarchy_visitor_runs", 0))
     R.set("evaluations", evaluations)
     R.set("distinct_nontrivial", counts["configurations"] + len(hashes))
     R.set("states", counts["configurations"] + stats.get("nodes", 0))
@@ -721,7 +880,10 @@ def run(tier):
         "every class of _c_ast.cfg x every subset of single children absent x every sequence child in "
         "{None, [], [n], [n,n']} on the checked-in module and on a module regenerated from the cfg (each compared "
         "with the specification and with each other); every AST of the program pool x {counting visitor, all-classes "
-        "visitor, one visit_X visitor per class, 8 show() variants, children()/iteration of every node}. "
+        "visitor, one visit_X visitor per class, 8 show() variants, children()/iteration of every node}; every class X x 5 "
+        "orders of use of visitor class hierarchies (plain NodeVisitor first, Base then Derived(Base)+visit_X, Derived "
+        "then Base, alternating siblings, one class instantiated twice) on every hand-written tree containing X, in "
+        "processes where other visitors ran before. "
         "evaluations = observations compared; non-trivial = configurations + distinct canonical pool ASTs",
     )
 
@@ -737,7 +899,14 @@ def replay(rep):
         stats = {"nodes": 0, "classes": {}, "node_local": 0, "visitor_runs": 0, "show_runs": 0,
                  "intercepted": 0, "nested_same_class": 0}
         roots = [o[1]] + [n for _, n in attr_held_nodes(W["by"], o[1])]
-        probs = [p for r in roots for p in check_tree(r, W, stats)]
+        if "hierarchy_class" in c:
+            hs = {"hierarchy_visitor_runs": 0, "hierarchy_cases": 0}
+            X = c["hierarchy_class"]
+            probs = [p for r in roots
+                     if any(n.__class__.__name__ == X for _, _, n in astspec.preorder(W["by"], r))
+                     for p in hierarchy_problems(W["by"], r, X, c.get("sibling_class", X), hs, c.get("orders"))]
+        else:
+            probs = [p for r in roots for p in check_tree(r, W, stats)]
         probs = [(sig, det) for sig, _, det in regroup([(sig, {}, det) for sig, det in probs])]
         print("input:", repr(c["text"][:300]))
         for p in probs:
